@@ -81,6 +81,7 @@ def gen(rng, idx, tier, seed):
         'int_coord': bool(rng.random() < 0.15),
         # storage type of the coordinate and its bounds
         'cdtype': str(rng.choice(['d', 'd', 'f', 'store-int'])),
+        'disk': bool(idx % 7 == 3),
     }
 
 
@@ -315,8 +316,19 @@ def install():
 
 
 def run_val(spec, res):
+    with harness.casedir() as d, harness.handles() as h:
+        run_val_in(spec, res, d, h)
+
+
+def run_val_in(spec, res, d, h):
     install()
     f, c, e = build(spec)
+    if spec.get('disk'):
+        # the coordinate file saved and opened again from disk
+        g = harness.to_disk(f, d, h)
+        if g is not None:
+            f = g
+            res.facet('source:disk')
     q = queries(spec, c, e)
     kw = dict(method=spec['method'], clean=spec['clean'],
               bounds=spec['boundsopt'])
